@@ -265,6 +265,11 @@ protected:
       }
     });
 
+    detail::dynamic_check(
+      chosen_trampoline != nullptr,
+      "Could not register the callback: all callback slots of the sandbox "
+      "are in use");
+
     return reinterpret_cast<T_PointerType>(chosen_trampoline);
   }
 
